@@ -226,7 +226,7 @@ class X12Base(object):
 
         @rtype: string
         """
-        for loop in self.loops:
+        for loop in reversed(self.loops):
             if loop[0] == 'ISA':
                 return loop[1]
         return None
@@ -237,7 +237,7 @@ class X12Base(object):
 
         @rtype: string
         """
-        for loop in self.loops:
+        for loop in reversed(self.loops):
             if loop[0] == 'GS':
                 return loop[1]
         return None
@@ -248,7 +248,7 @@ class X12Base(object):
 
         @rtype: string
         """
-        for loop in self.loops:
+        for loop in reversed(self.loops):
             if loop[0] == 'ST':
                 return loop[1]
         return None
@@ -259,7 +259,7 @@ class X12Base(object):
 
         @rtype: string
         """
-        for loop in self.loops:
+        for loop in reversed(self.loops):
             if loop[0] == 'LS':
                 return loop[1]
         return None
